@@ -362,6 +362,8 @@ def run(ctx, which):
             [c for c in cases if c.stream == "random"][:400]
         java_cross(ctx, world, jsel)
 
+    bad_arity_stream(ctx, world)
+
     # 6. glue: string length and float32 rounding against Lean's own
     lines, meta = [], []
     for s in cc.STRINGS + ["".join(chr(rng.randrange(0x80, 0x3000))
@@ -396,6 +398,134 @@ def run(ctx, which):
                                       % (b, pb, lb))
     ctx.extra["node_table"] = "%d attached, %d detached" % (
         len(world.attached), len(world.detached))
+
+
+def bad_arity_stream(ctx, world):
+    """KNOWN heads with an arity their codec rejects: the codecs notice only
+    when decoding / encoding reaches the head (behind an empty container or
+    an unselected variant alternative it is never noticed; behind an unknown
+    head the whole table becomes UnknownData first)"""
+    import gtirb
+    from gtirb.serialization import (DecodeError, EncodeError,
+                                     UnknownCodecError)
+    rng = ctx.rng
+    leaf = lambda n: (n, [])   # noqa
+    BAD = [  # (type tree, a Python value one might try to encode, tokens)
+        (("string", [leaf("int8_t")]), "a", ["s", cc.hexs("a")]),
+        (("sequence", [leaf("uint8_t"), leaf("bool")]), [5], ["L", "1", "i", "5"]),
+        (("sequence", []), [], ["L", "0"]),
+        (("set", []), set(), ["S", "0"]),
+        (("mapping", [leaf("string")]), {}, ["M", "0"]),
+        (("uint8_t", [leaf("bool")]), 5, ["i", "5"]),
+        (("bool", [leaf("bool")]), True, ["b", "1"]),
+        (("double", [leaf("bool")]), 1.0, ["d", str(cc.f64_bits(1.0))]),
+        (("UUID", [leaf("bool")]), world.foreign_uuids[0],
+         cc.elem_tokens(world, world.foreign_uuids[0])),
+    ]
+    lines, want, what = [], [], []
+    for _ in range(ctx.scale(400, 6000)):
+        bad, bval, btoks = rng.choice(BAD)
+        kt = cc.gen_type(rng, 1)
+        kv = cc.gen_value(rng, world, kt, False)
+        ktoks = cc.to_tokens(world, kt, kv)
+        kb = cc.impl_encode(gtirb, cc.render(kt), kv)
+        junk = bytes(rng.getrandbits(8) for _ in range(rng.randrange(0, 9)))
+        shape_ = rng.choice(["empty", "top", "tuple", "variant-other",
+                             "variant-bad", "unknown-first"])
+        if shape_ == "empty":
+            wrap = rng.choice(["sequence", "set"])
+            t = ("tuple", [kt, (wrap, [bad])])
+            v = (kv, [] if wrap == "sequence" else set())
+            toks = ["T", "2"] + ktoks + ["L" if wrap == "sequence" else "S",
+                                         "0"]
+            data = kb + (0).to_bytes(8, "little") + junk
+        elif shape_ == "top":
+            t, v, toks, data = bad, bval, btoks, junk
+        elif shape_ == "tuple":
+            t, v, toks = ("tuple", [kt, bad]), (kv, bval), \
+                ["T", "2"] + ktoks + btoks
+            data = kb + junk
+        elif shape_ == "variant-other":
+            t = ("variant", [kt, bad])
+            v = gtirb.serialization.Variant(0, kv)
+            toks = ["V", "0"] + ktoks
+            data = (0).to_bytes(8, "little") + kb + junk
+        elif shape_ == "variant-bad":
+            t = ("variant", [kt, bad])
+            v = gtirb.serialization.Variant(1, bval)
+            toks = ["V", "1"] + btoks
+            data = (1).to_bytes(8, "little") + junk
+        else:
+            t = ("tuple", [("foo", []), bad])
+            v, toks, data = None, None, junk
+        name = cc.render(t)
+        nh = cc.hexs(name)
+        # ---- decode
+        try:
+            got = cc.impl_decode(gtirb, name, data, world.ir.get_by_uuid)
+            obs = "unknown" if isinstance(
+                got, gtirb.serialization.UnknownData) else "value"
+            if obs == "value":
+                try:
+                    obs = "value " + " ".join(cc.nan_normalise(cc.canon(
+                        cc.to_tokens(world, t, got))))
+                except Exception:   # noqa
+                    obs = "value"
+        except UnknownCodecError:
+            obs = "unknown"
+        except DecodeError as e:
+            obs = "unsupported" if ("subtypes" in str(e) or "unpack" in str(e)) \
+                else "decode-error"
+        except (Exception, core.ImplTimeout) as e:   # noqa
+            obs = "exc:" + type(e).__name__
+        lines.append("dec %s %s" % (nh, cc.hexb(data)))
+        want.append(obs)
+        what.append((name, "dec", data.hex()))
+        ctx.count("bad-arity:%s:dec:%s" % (shape_, obs.split(" ")[0]))
+        ctx.nontriv(("bad-arity", shape_, "dec", obs.split(" ")[0], bad[0]))
+        # ---- encode
+        if toks is not None:
+            try:
+                out = cc.impl_encode(gtirb, name, v)
+                eobs = "ok " + cc.hexb(out)
+            except EncodeError:
+                eobs = "none"
+            except (Exception, core.ImplTimeout) as e:   # noqa
+                eobs = "exc:" + type(e).__name__
+            lines.append("enc %s %s" % (nh, " ".join(toks)))
+            want.append(eobs)
+            what.append((name, "enc", " ".join(toks)))
+            ctx.count("bad-arity:%s:enc:%s" % (shape_, eobs.split(" ")[0]))
+        ctx.evaluations += 1
+    out = core.lean_batch("codec", world.node_lines() + lines)[
+        len(world.node_lines()):]
+    for (name, op, arg), w, o in zip(what, want, out):
+        if op == "dec":
+            head = o.split(" ")[0]
+            lean = {"ok": "value", "unknown": "unknown",
+                    "unsupported": "unsupported"}.get(head, o)
+            # strict reads of the model (short input) are outside C07 / C08
+            if lean in ("short", "badutf8", "badindex") or \
+                    (w.startswith("value") and lean != "value"
+                     and lean not in ("unknown", "unsupported")):
+                continue
+            if w == "decode-error" or w.startswith("exc:"):
+                continue       # junk bytes: Python's lenient reads
+            if w.startswith("value ") and lean == "value":
+                try:
+                    ok = w[6:] == " ".join(cc.nan_normalise(cc.canon(
+                        o.split(" ")[2:])))
+                except Exception:   # noqa
+                    ok = False
+            else:
+                ok = lean == w.split(" ")[0]
+        else:
+            ok = o == w
+        if not ok:
+            ctx.tie_broken.append(
+                "correspondence:codec bad-arity %s %s %s impl=%s lean=%s"
+                % (op, name, arg[:40], w, o[:60]))
+            break
 
 
 def java_supported(t):
